@@ -137,9 +137,9 @@ func (m *Model) Delete(key string) bool {
 	delete(m.live, key)
 	return true
 }
-func (m *Model) Has(key string) bool { _, ok := m.live[key]; return ok }
+func (m *Model) Has(key string) bool   { _, ok := m.live[key]; return ok }
 func (m *Model) Get(key string) []byte { return m.live[key] }
-func (m *Model) Len() int            { return len(m.live) }
+func (m *Model) Len() int              { return len(m.live) }
 func (m *Model) Snapshot() []Entry {
 	out := make([]Entry, 0, len(m.live))
 	for k, v := range m.live {
@@ -296,6 +296,7 @@ type WalkReport struct {
 	MaxLevelSeen   int
 	UpperMarked    int // marked nodes still linked at some level > 0
 	Problems       []string
+	NotLive        []string
 	Nodes          []*skiplist.Node // level-0 linked nodes in order
 	ReachableUpper map[*skiplist.Node]bool
 }
@@ -303,6 +304,12 @@ type WalkReport struct {
 // Walk walks every level of s. cmp orders items (strictly increasing expected
 // among unmarked nodes). sizeOf gives the bytes accounted per node.
 func Walk(s *skiplist.Skiplist, cmp func(a, b unsafe.Pointer) int, itemSize func(unsafe.Pointer) int, bound int) *WalkReport {
+	return WalkLive(s, cmp, itemSize, bound, nil)
+}
+
+// WalkLive is Walk with a liveness oracle: a reachable node that is not a live
+// allocator block is reported (NotLive) instead of being dereferenced.
+func WalkLive(s *skiplist.Skiplist, cmp func(a, b unsafe.Pointer) int, itemSize func(unsafe.Pointer) int, bound int, live func(unsafe.Pointer) bool) *WalkReport {
 	r := &WalkReport{ReachableUpper: map[*skiplist.Node]bool{}}
 	head, tail := s.HeadNode(), s.TailNode()
 	var below map[*skiplist.Node]int // position index of unmarked nodes at level below
@@ -320,6 +327,10 @@ func Walk(s *skiplist.Skiplist, cmp func(a, b unsafe.Pointer) int, itemSize func
 		for n != tail {
 			if n == nil {
 				addp("level %d: nil successor before reaching tail after %d steps", lvl, steps)
+				break
+			}
+			if live != nil && !live(unsafe.Pointer(n)) {
+				r.NotLive = append(r.NotLive, fmt.Sprintf("level %d: node %p reachable after %d steps is not a live allocator block (released while still linked)", lvl, n, steps))
 				break
 			}
 			steps++
@@ -508,6 +519,9 @@ func loaderStuck() bool {
 // linkedAt searches every level of s (from the head, through marked nodes too)
 // for node p; it returns the level at which p is still linked, or -1.
 func linkedAt(s *skiplist.Skiplist, p unsafe.Pointer, bound int) int {
+	// the monitor is itself an accessor of the structure: hold a token while walking
+	tok := s.GetAccesBarrier().Acquire()
+	defer s.GetAccesBarrier().Release(tok)
 	head, tail := s.HeadNode(), s.TailNode()
 	top := s.VerifLevel()
 	for lvl := top; lvl >= 0; lvl-- {
